@@ -131,6 +131,25 @@ class C15(Prop):
                 else:
                     evs.append(UNSUB)
             out.append(mk_case(chain, evs, rng.choice(["local", "threads"]), "rand"))
+        # several subscriptions of clones of ONE pipeline value: the callback runs once PER SUBSCRIPTION
+        for fl in ("local", "threads"):
+            for nclones in (2, 3):
+                for chain in ([["fin", "0"]], [["map", "add1"], ["fin", "0"]], [["fin", "0"], ["skip", "1"]],
+                              [["fin", "0"], ["fin", "1"]]):
+                    for n in range(4):
+                        for seq in itertools.product(ALPHABET, repeat=n):
+                            c = mk_case(chain, self.number(seq), fl, "clones")
+                            c.fields.append(("clones", [str(nclones)]))
+                            out.append(c)
+        # a source that is already torn down when the pipeline subscribes (closed subscription, no terminal
+        # will ever come): unsubscribing must still run the callback
+        for fl in ("local", "threads"):
+            for chain in ([["fin", "0"]], [["fin", "0"], ["map", "add1"]], [["fin", "0"], ["fin", "1"]]):
+                for n in range(4):
+                    for seq in itertools.product(ALPHABET, repeat=n):
+                        c = mk_case(chain, self.number(seq), fl, "dead")
+                        c.fields.append(("dead", ["1"]))
+                        out.append(c)
         return out
 
     @staticmethod
@@ -148,6 +167,32 @@ class C15(Prop):
     def oracle(self, case, lines, model_lines=None):
         chain = case.field("chain")
         ids = fin_ids(chain)
+        if case.meta.get("kind") in ("clones", "dead") or case.field("clones") or case.field("dead"):
+            n = int(case.field("clones")[0]) if case.field("clones") else 1
+            dead = bool(case.field("dead"))
+            seen = {k: 0 for k in ids}
+            triggered = False
+            for i, ev in enumerate(case.events):
+                b = lines.get(i)
+                if b == "PANIC":
+                    return {"kind": "panic", "event": i, "detail": "panic in the implementation"}
+                toks = parse_tokens(b) or []
+                is_term = ev[0] == "emit" and not (isinstance(ev[1], list) and ev[1][0] == "n")
+                if ev[0] == "unsub" or (is_term and not dead):
+                    triggered = True
+                for t in toks:
+                    for k in ids:
+                        if t == marker(k):
+                            seen[k] += 1
+                            if not triggered:
+                                return {"kind": "before-trigger", "event": i, "detail": b}
+                for k in ids:
+                    if seen[k] > n:
+                        return {"kind": "twice", "event": i, "detail": f"{marker(k)} ran {seen[k]} times for {n} subscription(s)"}
+                    if triggered and seen[k] != n:
+                        return {"kind": "not-once-per-subscription", "event": i,
+                                "detail": f"{marker(k)} ran {seen[k]} times for {n} subscription(s) after the trigger"}
+            return None
         evtoks = []
         for i in range(len(case.events)):
             b = lines.get(i)
